@@ -210,7 +210,7 @@ func runC05(c *eng.Ctx) {
 		}
 	}
 
-	c05Apply(c)
+	c05Apply(c, "R6")
 }
 
 func p0IsPhiOf(v, want ssa.Value) bool {
@@ -231,8 +231,8 @@ func p0IsPhiOf(v, want ssa.Value) bool {
 	return false
 }
 
-func c05Apply(c *eng.Ctx) {
-	fn := c.MustFunc("R6", corePkg, "Apply")
+func c05Apply(c *eng.Ctx, rule string) {
+	fn := c.MustFunc(rule,corePkg, "Apply")
 	if fn == nil {
 		return
 	}
@@ -282,28 +282,28 @@ func c05Apply(c *eng.Ctx) {
 		case *ssa.MapUpdate:
 			n++
 			ok, why := fromCopy(x.Map, map[ssa.Value]bool{})
-			c.Check("R6", "mutates-own-copy:update", x.Pos(), ok, "Apply inserts only into its own copy of the tree", why)
+			c.Check(rule,"mutates-own-copy:update", x.Pos(), ok, "Apply inserts only into its own copy of the tree", why)
 			vr := eng.Render(x.Value)
-			c.Check("R6", "inserts-copy", x.Pos(), strings.HasPrefix(vr, "(*synchronization/core.Entry).Copy(") && strings.Contains(vr, ".New,"), "the inserted subtree is a copy of change.New", vr)
-			c.Check("R6", "insert-only-non-nil", x.Pos(), newNilGuard(eng.Guards(x), false), "insertion happens only for change.New != nil", eng.AtomsText(eng.Guards(x)))
+			c.Check(rule,"inserts-copy", x.Pos(), strings.HasPrefix(vr, "(*synchronization/core.Entry).Copy(") && strings.Contains(vr, ".New,"), "the inserted subtree is a copy of change.New", vr)
+			c.Check(rule,"insert-only-non-nil", x.Pos(), newNilGuard(eng.Guards(x), false), "insertion happens only for change.New != nil", eng.AtomsText(eng.Guards(x)))
 		case *ssa.Call:
 			if eng.CalleeName(x) == "builtin:delete" {
 				n++
 				ok, why := fromCopy(x.Call.Args[0], map[ssa.Value]bool{})
-				c.Check("R6", "mutates-own-copy:delete", x.Pos(), ok, "Apply deletes only from its own copy of the tree", why)
-				c.Check("R6", "delete-only-nil", x.Pos(), newNilGuard(eng.Guards(x), true), "deletion happens only for change.New == nil", eng.AtomsText(eng.Guards(x)))
+				c.Check(rule,"mutates-own-copy:delete", x.Pos(), ok, "Apply deletes only from its own copy of the tree", why)
+				c.Check(rule,"delete-only-nil", x.Pos(), newNilGuard(eng.Guards(x), true), "deletion happens only for change.New == nil", eng.AtomsText(eng.Guards(x)))
 			}
 		case *ssa.Store:
 			if fa, ok := x.Addr.(*ssa.FieldAddr); ok && eng.FieldOf(fa).Name() == "Contents" {
 				n++
 				ok, why := fromCopy(fa.X, map[ssa.Value]bool{})
-				c.Check("R6", "mutates-own-copy:contents", x.Pos(), ok, "a content map is installed only in Apply's own copy", why)
-				c.Check("R6", "allocate-only-on-insert", x.Pos(), newNilGuard(eng.Guards(x), false), "a content map is allocated only when inserting (never while deleting)", eng.AtomsText(eng.Guards(x)))
+				c.Check(rule,"mutates-own-copy:contents", x.Pos(), ok, "a content map is installed only in Apply's own copy", why)
+				c.Check(rule,"allocate-only-on-insert", x.Pos(), newNilGuard(eng.Guards(x), false), "a content map is allocated only when inserting (never while deleting)", eng.AtomsText(eng.Guards(x)))
 			}
 		}
 	})
 	if n < 3 {
-		c.Problem("R6", "expected ≥3 mutations in Apply, found %d", n)
+		c.Problem(rule,"expected ≥3 mutations in Apply, found %d", n)
 	}
 	// Missing parent → error.
 	for _, r := range eng.Returns(fn) {
@@ -311,11 +311,11 @@ func c05Apply(c *eng.Ctx) {
 		g := eng.Guards(r)
 		for _, a := range g {
 			if strings.HasPrefix(a.Expr, "lookupok(") && strings.HasSuffix(a.Expr, "#1") && !a.Pos {
-				c.Check("R6", "missing-parent-is-error", r.Pos(), !eng.IsNilConst(res[1]) && eng.IsNilConst(res[0]), "an unresolvable parent path fails the whole Apply")
+				c.Check(rule,"missing-parent-is-error", r.Pos(), !eng.IsNilConst(res[1]) && eng.IsNilConst(res[0]), "an unresolvable parent path fails the whole Apply")
 			}
 		}
 	}
-	c.Floor("R6", 8)
+	c.Floor(rule,8)
 }
 
 // newNilGuard reports whether guards contain (X.New == nil) with polarity pol.
